@@ -879,10 +879,66 @@ func report(c *core.Ctx, spec gens.JPExpr, t *tree, fs []finding) {
 			}
 		}
 		x := s.Build()
+		if startElementReading(c, s, x, st, g) {
+			// known finding: Has / First read a slice over a reflected slice or array
+			// as the element at its start. Only cases whose outcome is what that
+			// reading prescribes are keyed here.
+			cs := caseT{Path: s, Text: x.String(), Data: st.encoded(), Repr: g.repr, Eval: g.eval, Kind: "slice-read-as-start-element"}
+			c.Fail(core.Sig(g.eval, "slice-read-as-start-element-by-reflection"), cs, len(s)*1000+len(st.show()), g.exp, g.obs+"   ["+g.eval+" of "+x.String()+" on "+g.repr+" form of "+st.show()+"]")
+			continue
+		}
 		cs := caseT{Path: s, Text: x.String(), Data: st.encoded(), Repr: g.repr, Eval: g.eval, Kind: g.kind}
 		size := len(s)*1000 + len(st.show()) + reprPenalty(g.repr)
 		c.Fail(signature(s, st, g, filterBlamed(c, s, st, g)), cs, size, g.exp, g.obs+"   ["+g.eval+" of "+x.String()+" on "+g.repr+" form of "+st.show()+"]")
 	}
+}
+
+// startElementReading reports whether Has or First, failing against Get on a
+// representation reached by reflection, returns what Get returns for the path
+// in which every slice fragment is replaced by the index of its start.
+func startElementReading(c *core.Ctx, spec gens.JPExpr, x jp.Expr, t *tree, f finding) bool {
+	if (f.eval != "Has" && f.eval != "First") || gens.ReprClass(f.repr) != "reflect" || !spec.HasFrag("slice") {
+		return false
+	}
+	alt := make(gens.JPExpr, len(spec))
+	for i, fr := range spec {
+		if fr.K == "slice" {
+			start := 0
+			if len(fr.S) > 0 {
+				start = fr.S[0]
+			}
+			fr = gens.JPNth(start)
+		}
+		alt[i] = fr
+	}
+	ax := alt.Build()
+	for _, r := range t.reprs {
+		if r.Name != f.repr {
+			continue
+		}
+		want := doGet(c, ax, r.Value)
+		if want.pv != nil {
+			return false
+		}
+		if f.eval == "Has" {
+			has := guard(c, func(res *evalRes) { res.flag = x.Has(r.Value) })
+			return has.pv == nil && has.flag == (len(want.vals) > 0)
+		}
+		ff := guard(c, func(res *evalRes) { res.one, res.flag = x.FirstFound(r.Value) })
+		if ff.pv != nil || ff.flag != (len(want.vals) > 0) {
+			return false
+		}
+		if !ff.flag {
+			return true
+		}
+		for _, g := range want.vals {
+			if same(ff.one, g) {
+				return true
+			}
+		}
+		return false
+	}
+	return false
 }
 
 func reprPenalty(name string) int {
